@@ -728,6 +728,9 @@ func main() {
 		return
 	}
 
+	if a.Tier == "search" && a.N > 3000 {
+		a.N = 3000 // the search for a failing input after a broken obligation must end within minutes
+	}
 	rng := hx.NewRng(a.Seed)
 	type shape struct{ n, t int }
 	var shapes []shape
